@@ -1,10 +1,10 @@
 package props
 
 import (
-	"strconv"
 	"fmt"
 	"os"
 	"sort"
+	"strconv"
 	"strings"
 	"sync"
 	"time"
@@ -247,6 +247,12 @@ func runActScript(script string, srvArgs ...string) (string, *fw.OracleFailure) 
 				termSerial++
 				time.Sleep(30 * time.Millisecond)
 			}
+		case tok == "V": // a dedicated response (0x0104, answer to a parameter query) echoing a serial nobody waits for
+			if cl != nil {
+				_ = cl.Send(frames.Build(frames.H{ID: 0x0104, Phone: phone, Serial: termSerial}, []byte{0x77, 0x77, 0}))
+				termSerial++
+				time.Sleep(30 * time.Millisecond)
+			}
 		case tok == "H":
 			if cl != nil {
 				hbSent++
@@ -346,6 +352,8 @@ func genActScripts(r *fw.Rng, n int, withClose bool) []string {
 	// the first command of a connection carries platform serial 0 when the join message got no reply: a response that
 	// echoes a serial nobody waits for must not be taken for it
 	out = append(out, "J0,CaL,W,Ra", "J0,CaS,W,T", "J0,CaL,CbL,W,Rb,Ra")
+	// a stray DEDICATED response (0x0104 with a serial nobody waits for) while exactly one / two commands are outstanding
+	out = append(out, "J,CaL,V,Ra", "J,CaS,V,T", "J,CaL,CbL,V,Ra,Rb", "J,CaL,Ra,V,CbL,V,Rb")
 	for len(out) < n {
 		toks := []string{"J"}
 		live := true
